@@ -1,0 +1,10 @@
+//go:build verif
+
+// Contracts checked by /verif/govc (comment-only; compiled only with -tags verif).
+package logderivarg
+
+// (the ghost counter nCommitted and its update by multicommit.WithCommitment are declared in std/multicommit)
+
+// Build (the committed vector = table unless constant ++ queries ++ multiplicities, and the log-derivative
+// identity itself) is not yet under contract: the row-length invariants over the nested tables did not
+// discharge within the budget. See DESIGN.md section 9.
